@@ -78,7 +78,7 @@ def basic_shard_text(ctx, cases):
             "  then [] else [i]) cases.\n")
 
 
-EXT_HEADER = cdc.HEADER + "From PV Require Import Circuit.Registry Circuit.Token_decode Circuit.Printer_lex Circuit.Parser_basic Circuit.ElemProp Circuit.Parser_ext.\n"
+EXT_HEADER = cdc.HEADER + "From PV Require Import Circuit.Registry Circuit.Token_decode Circuit.Token_ext Circuit.Printer_num Circuit.Printer_lex Circuit.Parser_basic Circuit.ElemProp Circuit.Parser_ext Circuit.Lex_ext.\n"
 
 
 def ext_shard_text(ctx, cases):
@@ -89,28 +89,24 @@ def ext_shard_text(ctx, cases):
     items = ["(%d%%Z, %d%%nat, %s, %s)" % (i, d, tlit, cdc.outcome_lit(ctx, obs)) for i, d, tlit, obs in cases]
     return ("Definition cases : list (Z * nat * conn * outcome conn) := [\n" + ";\n".join(items) + "].\n"
             "Definition F := 400%nat.\n"
-            "Definition rdx (d : nat) (x : xnum) : xnum :=\n"
-            "  match x with Fin _ => match float_of_str (fmtE d x) with Some y => y | None => NaN end | _ => x end.\n"
-            "Definition rd_elt (d : nat) (e : elt) : elt :=\n"
-            "  mkE (elabel e) (map (fun kp => (fst kp, mkP (rdx d (pv (snd kp))) (rdx d (plo (snd kp))) (rdx d (phi (snd kp))) (pfx (snd kp)))) (epars e)).\n"
-            "Fixpoint rd_node (fuel d : nat) (n : node) : node :=\n"
-            "  match fuel with O => n | S f => match n with NE ci st subs => NE ci (rd_elt d st) subs | NC c => NC (rd_conn f d c) end end\n"
-            "with rd_conn (fuel d : nat) (c : conn) : conn :=\n"
-            "  match fuel with O => c | S f => match c with Ser l => Ser (map (rd_node f d) l) | Par l => Par (map (rd_node f d) l) end end.\n"
             "Definition tok_eqb (a b : tok) : bool := tkind_eqb (tk a) (tk b) && str_eqb (tstr a) (tstr b) && xsame (tnum a) (tnum b).\n"
             "Fixpoint toks_eqb (a b : list tok) : bool :=\n"
             "  match a, b with [], [] => true | x :: a', y :: b' => tok_eqb x y && toks_eqb a' b' | _, _ => false end.\n"
+            "(* hypotheses of C03_extended_round_trip: lex_conn_ok (lexical half) and xpconn of the read-back tree = Some (syntactic half);\n"
+            "   when they hold the conclusion is re-evaluated on the models (tokens of the printed text) and compared with the implementation *)\n"
             "Definition result : list Z := flat_map (fun c : Z * nat * conn * outcome conn => let '(i, d, t, o) := c in\n"
-            "  let t' := rd_conn F d t in\n"
-            "  match tokenize (to_string builtin_registry (Some d) t F) with\n"
-            "  | Ok ts => if toks_eqb ts (xctoks builtin_registry F t') then\n"
-            "               match xpconn builtin_registry F t' with\n"
-            "               | Some n => if outcome_close F (Ok (top n)) o then [] else [i]\n"
-            "               | None => [(1000000 + i)%Z]\n"
-            "               end\n"
-            "             else [i]\n"
-            "  | _ => [i]\n"
-            "  end) cases.\n")
+            "  let t' := rd_conn d F t in\n"
+            "  if lex_conn_ok builtin_registry d F t then\n"
+            "    match tokenize (to_string builtin_registry (Some d) t F) with\n"
+            "    | Ok ts => if toks_eqb ts (xctoks builtin_registry F t') then\n"
+            "                 match xpconn builtin_registry F t' with\n"
+            "                 | Some n => if outcome_close F (Ok (top n)) o then [] else [i]\n"
+            "                 | None => [(1000000 + i)%Z]\n"
+            "                 end\n"
+            "               else [i]\n"
+            "    | _ => [i]\n"
+            "    end\n"
+            "  else [(2000000 + i)%Z]) cases.\n")
 
 
 def finding_probes(ctx):
@@ -155,7 +151,7 @@ def run(rep, tier, seed, tr_errors):
     ]
     thm_ok, names, out = lib.check_props_file(rep, PROPS_FILE, expect=["C03_container_scope", "C03_one_node_per_step", "C03_basic_text_lexes_exactly", "C03_builtin_registry_symbols_valid",
                                                                     "C03_basic_round_trip", "C03_basic_round_trip_parse", "C03_basic_whitespace_insensitive", "C03_basic_implicit_outer_series", "C03_basic_round_trip_applies",
-                                                                    "C03_extended_round_trip_tokens", "C03_constructor_rebuilds_the_element", "C03_extended_round_trip_applies"])
+                                                                    "C03_extended_round_trip_tokens", "C03_constructor_rebuilds_the_element", "C03_extended_round_trip", "C03_printed_number_shape", "C03_extended_round_trip_applies"])
     thm_ok2, _, _ = lib.check_props_file(rep, "Props/C03_Sem.v", expect=["C03_basic_round_trip_same_impedance", "C03_implicit_series_same_impedance", "C03_parse_results_well_formed"])
     thm_ok = thm_ok and thm_ok2
     n_rt = 250 if tier == "quick" else 5000
@@ -234,12 +230,14 @@ def run(rep, tier, seed, tr_errors):
     eouts = lib.run_shards(PROP + "e", EXT_HEADER, [ext_shard_text(ctx, ecases[j:j + 40]) for j in range(0, len(ecases), 40)], timeout=900)
     eall = [j for rc, parsed, raw in eouts if rc == 0 and parsed is not None for j in parsed]
     emism = [j for j in eall if j < 1000000]
-    ena = [j - 1000000 for j in eall if j >= 1000000]
+    ena = [j - 1000000 for j in eall if 1000000 <= j < 2000000]
+    elex = [j - 2000000 for j in eall if j >= 2000000]
     ebroken = [(si, raw[-800:]) for si, (rc, parsed, raw) in enumerate(eouts) if rc != 0 or parsed is None]
-    rep.extra["extended_token_cases"] = {"circuits_without_containers": len(ecases), "outside_the_theorem_hypotheses": len(ena)}
+    rep.extra["extended_token_cases"] = {"circuits_without_containers": len(ecases), "outside_the_syntactic_hypotheses": len(ena),
+                                         "outside_the_lexical_hypotheses (labels not starting with a letter or holding a brace, printed numbers beyond the double range)": len(elex)}
     rep.oblige("correspondence:extended-syntax tokens of the printed text and the theorem's specification xpconn vs to_string(d)/parse_cdc",
-               not emism and not ebroken and len(ecases) - len(ena) >= 10,
-               "%d circuits without containers, %d outside the hypotheses, %d mismatches, %d shards failed" % (len(ecases), len(ena), len(emism), len(ebroken)))
+               not emism and not ebroken and len(ecases) - len(ena) - len(elex) >= 10,
+               "%d circuits without containers, %d + %d outside the hypotheses, %d mismatches, %d shards failed" % (len(ecases), len(ena), len(elex), len(emism), len(ebroken)))
     bmism = [j for rc, parsed, raw in bouts if rc == 0 and parsed is not None for j in parsed]
     bbroken = [(si, raw[-800:]) for si, (rc, parsed, raw) in enumerate(bouts) if rc != 0 or parsed is None]
     rep.oblige("correspondence:basic-syntax printer, parser and the theorem's specification pconn vs to_string()/parse_cdc",
